@@ -89,6 +89,13 @@ Theorem C20_pull_concurrent_one_registered :
 Proof. exact concurrent_one_registered. Qed.
 Print Assumptions C20_pull_concurrent_one_registered.
 
+(* ... and what the check demands of n >= 1 simultaneous requesters on the real code ([ok_conc]: every
+   requester answered, exactly one returned stream live and registered, one connection / counter /
+   goroutine while it plays, nothing at the end) is met by the model for every n *)
+Theorem C20_conc_model_passes : forall n, (1 <= n)%nat -> ok_conc (conc_model n) = true.
+Proof. exact conc_model_ok. Qed.
+Print Assumptions C20_conc_model_passes.
+
 (* 4. the boolean specification [ok_rounds] — written from the property text, independent of the
    request function — is the oracle the check applies to the implementation's observations
    (Run/RunC20.v x_C20_ok); the model satisfies it for every configuration and all scripts *)
